@@ -651,6 +651,7 @@ impl Scenario for Violations {
     fn build(&self, p: &Value) -> Built {
         let kind = p["kind"].as_str().unwrap().to_string();
         let mut broker = StdBroker::new(Handshake::default());
+        broker.strict_content = false;
         let last = chain(&mut broker, "valid", vec![deliver(1, "ctag-1-2", 50), header(1, 1, false), body(1, &[6])], None, Some((1, 2)));
         let (frames, _, _) = violation_frames(&kind);
         chain(&mut broker, "bad", frames, Some(&last), Some((1, 2)));
